@@ -304,6 +304,159 @@ def judge_metric(inp, obs, lr):
     return None
 
 
+# ---- oracle: histories on one / several point objects -------------------------------------------
+# "reading coordinates in any model and building a point back gives the same point" must also hold for an object
+# with a past (coordinates read before an in-place item assignment), for a point built from a caller-owned buffer
+# that the caller then recycles, and for a point built from another point (or a selection of one) that is then edited.
+def gen_hist(rng, n):
+    for _ in range(n):
+        dim = rng.choice([1, 2, 2, 3, 4])
+        k = rng.choice([2, 3, 4])
+        yield {"dim": dim, "a": fball(rng, dim, [k], 0.95), "b": fball(rng, dim, [k], 0.95),
+               "steps": [rng.choice(["read", "setitem", "setslice", "buffer", "dup_edit", "sel_edit", "distance"])
+                         for _ in range(rng.randint(3, 7))],
+               "models": [rng.choice(MODELS) for _ in range(8)], "idx": [rng.randrange(k) for _ in range(8)]}
+
+
+def _klein_of(P):
+    return np.array(P.coords("klein"), dtype=float)
+
+
+def run_hist(inp):
+    a = np.array(inp["a"]); b = np.array(inp["b"])
+    truth = a.copy()                       # Klein coordinates the object `P` must represent
+    P = H.Point(a.copy(), model="klein")
+    others = []                            # (object, klein truth) pairs that must never move
+    for j, st in enumerate(inp["steps"]):
+        m = inp["models"][j % 8]; i = inp["idx"][j % 8]
+        if st == "read":
+            for mm in MODELS:
+                P.coords(mm)
+        elif st == "distance":
+            P.distance(H.Point(b.copy(), model="klein"))
+        elif st == "setitem":
+            P[i] = H.Point(b[i].copy(), model="klein"); truth[i] = b[i]
+        elif st == "setslice":
+            P[...] = H.Point(b.copy(), model="klein"); truth = b.copy()
+        elif st == "buffer":
+            buf = np.array(P.coords(m), dtype=float)
+            first = H.Point(buf, model=m)
+            others.append((first, truth.copy()))
+            buf[...] = np.array(H.Point(b.copy(), model="klein").coords(m), dtype=float)   # caller recycles its buffer
+        elif st == "dup_edit":
+            dup = H.Point(P)
+            others.append((P, truth.copy())) if False else None
+            dup[i] = H.Point(b[i].copy(), model="klein")
+            t2 = truth.copy(); t2[i] = b[i]
+            others.append((dup, t2))
+        elif st == "sel_edit":
+            sel = P[0:2]
+            sel[0] = H.Point(b[0].copy(), model="klein")
+            t2 = truth[0:2].copy(); t2[0] = b[0]
+            others.append((sel, t2))
+        # after every step: every model's coordinates of P rebuild the point P is supposed to be
+        worst = 0.0
+        for mm in MODELS:
+            c = np.array(P.coords(mm), dtype=float)
+            k2 = _klein_of(H.Point(c.copy(), model=mm))
+            if k2.shape != truth.shape or not finite(k2):
+                return {"step": j, "op": st, "model": mm, "err": float("inf"), "who": "P"}
+            worst = max(worst, err(k2, truth))
+            if worst > 1e-6:
+                return {"step": j, "op": st, "model": mm, "err": worst, "who": "P"}
+        for obj, tr in others:
+            k2 = _klein_of(obj)
+            if k2.shape != tr.shape or not finite(k2) or err(k2, tr) > 1e-6:
+                return {"step": j, "op": st, "model": "klein", "err": err(k2, tr) if k2.shape == tr.shape else float("inf"),
+                        "who": "other object"}
+    return {"step": -1, "err": 0.0}
+
+
+def judge_hist(inp, obs, lr):
+    if "exc" in obs:
+        return {"expected": "history to run", "observed": obs, "tags": {"exc": obs["exc"]}}
+    if obs["err"] > 1e-6:
+        return {"expected": "after every step each object's coordinates (in every model) rebuild the point it represents; "
+                            "other objects and recycled caller buffers do not move it",
+                "observed": obs, "tags": {"op": obs.get("op"), "who": obs.get("who")}}
+    return None
+
+
+# ---- oracle: composites containing special elements ------------------------------------------------
+def gen_special(rng, n):
+    for _ in range(n):
+        dim = rng.choice([1, 2, 3, 4])
+        k = rng.choice([2, 3, 5])
+        pts = fball(rng, dim, [k], 0.95)
+        kind = rng.choice(["inf_ideal", "origin", "ideal", "equal"])
+        j = rng.randrange(k)
+        if kind == "inf_ideal":
+            pts[j] = [1.0] + [0.0] * (dim - 1)          # the half-space point at infinity (exempt itself)
+        elif kind == "origin":
+            pts[j] = [0.0] * dim
+        elif kind == "ideal":
+            v = [rng.gauss(0, 1) for _ in range(dim)]; nv = math.sqrt(sum(x * x for x in v)) or 1.0
+            v = [x / nv for x in v]
+            if abs(v[0] - 1) < 0.05:
+                v = [-x for x in v]        # keep away from the half-space point at infinity
+            pts[j] = v
+        else:
+            pts[j] = list(pts[(j + 1) % k])
+        yield {"dim": dim, "pts": pts, "kind": kind, "j": j}
+
+
+def run_special(inp):
+    k = np.array(inp["pts"])
+    P = H.Point(k.copy(), model="klein")
+    worst, where = 0.0, None
+    special_ideal = inp["kind"] in ("inf_ideal", "ideal")
+    for m1 in MODELS:
+        with np.errstate(all="ignore"):
+            c1 = np.array(P.coords(m1), dtype=float)
+        for i in range(len(inp["pts"])):
+            if i == inp["j"] and (inp["kind"] == "inf_ideal" or (special_ideal and m1 == "hyperboloid")):
+                continue                                     # exempt entry / no hyperboloid point for a lightlike vector
+            unit = H.Point(k[i].copy(), model="klein")
+            with np.errstate(all="ignore"):
+                cu = np.array(unit.coords(m1), dtype=float)
+            # the composite's entry i is what the unit object reports ...
+            a, b = c1[i], cu
+            if m1 in ("projective", "hyperboloid"):
+                ok = proj_close(a, b, 1e-6)
+            else:
+                ok = close(a, b, 1e-6 * (1 + float(np.max(np.abs(b))) ** 2) if i == inp["j"] and special_ideal else 1e-7)
+            if not ok:
+                return {"worst": float("inf"), "where": [m1, i], "composite": a.tolist(), "unit": b.tolist()}
+            # ... and builds back the same point
+            if not (i == inp["j"] and special_ideal and m1 == "halfspace"):
+                back = _klein_of(H.Point(a.copy(), model=m1))
+                e = err(back, k[i])
+                if e > worst:
+                    worst, where = e, [m1, i]
+    d = np.asarray(P.distance(H.Point(np.roll(k, 1, axis=0).copy(), model="klein")), dtype=float)
+    dref = []
+    for i in range(len(inp["pts"])):
+        a, b = k[i], np.roll(k, 1, axis=0)[i]
+        if min(1 - a @ a, 1 - b @ b) < 1e-9:
+            dref.append(None)
+        else:
+            dref.append(math.acosh(max(1.0, (1 - a @ b) / math.sqrt((1 - a @ a) * (1 - b @ b)))))
+    return {"worst": worst, "where": where, "dist": d.tolist(), "dref": dref}
+
+
+def judge_special(inp, obs, lr):
+    if "exc" in obs:
+        return {"expected": "coordinates of a composite containing a special element", "observed": obs,
+                "tags": {"exc": obs["exc"], "kind": inp["kind"]}}
+    if obs["worst"] > 1e-6:
+        return {"expected": "every non-exempt entry of the composite equals its unit object's coordinates and builds back the same point",
+                "observed": obs, "tags": {"kind": inp["kind"], "model": (obs.get("where") or [None])[0]}}
+    for x, r in zip(obs["dist"], obs["dref"]):
+        if r is not None and not (math.isfinite(x) and abs(x - r) <= 1e-6 * (1 + r)):
+            return {"expected": {"distances": obs["dref"]}, "observed": obs["dist"], "tags": {"kind": inp["kind"], "distance": True}}
+    return None
+
+
 CLAUSES = [
     Clause("coords_corr", "corr", gen_coords, run_coords, judge_coords, lean=lean_coords2,
            site="hyperbolic.Point.coords", budget={"quick": 150, "thorough": 20000},
@@ -317,4 +470,12 @@ CLAUSES = [
     Clause("metric_oracle", "oracle", gen_metric, run_metric, judge_metric, site="hyperbolic.Point.distance",
            budget={"quick": 300, "thorough": 60000},
            what="metric laws (finite, >=0, d(x,x)=0, symmetry, triangle), closed-form metrics of each model, composite = per unit"),
+    Clause("history_oracle", "oracle", gen_hist, run_hist, judge_hist, site="hyperbolic.Point.coords / __setitem__ / Point(Point)",
+           budget={"quick": 120, "thorough": 4000},
+           what="histories on point objects: reads in every model, in-place item assignment, points built from caller buffers that are then recycled, "
+                "copies and selections that are then edited; after every step all models' coordinates rebuild the represented point"),
+    Clause("special_oracle", "oracle", gen_special, run_special, judge_special, site="hyperbolic.Point.coords (composite)",
+           budget={"quick": 120, "thorough": 4000},
+           what="composites containing a special element (the half-space point at infinity, the origin, an ideal point, two equal points): "
+                "every other entry still equals its unit object's coordinates, round-trips, and has the right distance"),
 ]
